@@ -5,14 +5,39 @@ From Coq Require Import Reals Lra List ZArith.
 Set Warnings "-ambiguous-paths".   (* Coquelicot's Rbar coercion notice would otherwise end up in the Print Assumptions output *)
 From Coquelicot Require Import Coquelicot.
 From PV Require Import Np.NpR Gen.GenHandles Proofs.C12Handles Proofs.C12NegBinRefuted.
-From PV Require Import Base.Index Base.Sum Np.Array Model.Repr Model.C12Gcp Proofs.C12Tensor Proofs.C12TensorR Proofs.C12Mttkrps Proofs.C12Setup Proofs.C12GenTie Proofs.C12Reshape Proofs.C12KrTie Proofs.C12Lambda Proofs.C12Weighted Proofs.C12Wrap Proofs.C12EstGrad Proofs.C12EvalBytes Proofs.C12EndToEnd Proofs.C12LambdaR.
+From PV Require Import Base.Index Base.Sum Np.Array Model.Repr Model.C12Gcp Proofs.C12Tensor Proofs.C12TensorR Proofs.C12Mttkrps Proofs.C12Setup Proofs.C12GenTie Proofs.C12Reshape Proofs.C12KrTie Proofs.C12Lambda Proofs.C12Weighted Proofs.C12Wrap Proofs.C12EstGrad Proofs.C12EvalBytes Proofs.C12EndToEnd Proofs.C12LambdaR Proofs.C12WScale Proofs.C12EstLine.
 From PV Require Model.Harness Model.C12Harness Proofs.C12LambdaZ.
 From PV Require Model.C02Dense Proofs.C02DenseProofs.
-From PV Require Gen.GenFgSetup Gen.GenKernels Gen.GenKernels3 Proofs.C12GenMttv Proofs.C12GenMttvPy.
+From PV Require Gen.GenFgSetup Gen.GenKernels Gen.GenKernels3 Proofs.C12GenMttv Proofs.C12GenMttvPy Proofs.C12HandleNum.
 From PV Require Import Np.NpZ.
 Import List.   (* List.nth again in front of Coquelicot's *)
 Import ListNotations.
 Local Open Scope R_scope.
+
+(* ---- numeric tie of the ten real handles, decided in Coq (Proofs/C12HandleNum.v; audit A6) ----------------------------------------
+   hfun id = the GENERATED handle number id (2 * objective + 0 loss / 1 gradient); hnum_check evaluates it with the Interval library's
+   verified floating-point interval evaluator at the rational point (dn/dd, mn/md, pn/pd) and accepts only when the enclosure proves
+   |handle - on/od| <= tn/td.  The correspondence stream calls it (vm_compute) on every float pyttb's handles return. *)
+Theorem C12_handles_numeric : forall (id : nat) (below pos : bool) (dn dd mn md pn pd on od tn td : Z),
+  C12HandleNum.hnum_check id below pos dn dd mn md pn pd on od tn td = true ->
+  Rabs (C12HandleNum.hfun id (IZR dn / IZR dd) (IZR mn / IZR md) (IZR pn / IZR pd) - IZR on / IZR od) <= IZR tn / IZR td.
+Proof. exact C12HandleNum.hnum_check_sound. Qed.
+Print Assumptions C12_handles_numeric.
+
+(* the table: number -> generated handle *)
+Theorem C12_handles_numeric_table :
+  C12HandleNum.hfun 0 = (fun d m _ => gaussian d m) /\ C12HandleNum.hfun 1 = (fun d m _ => gaussian_grad d m) /\
+  C12HandleNum.hfun 2 = (fun d m _ => bernoulli_odds d m) /\ C12HandleNum.hfun 3 = (fun d m _ => bernoulli_odds_grad d m) /\
+  C12HandleNum.hfun 4 = (fun d m _ => bernoulli_logit d m) /\ C12HandleNum.hfun 5 = (fun d m _ => bernoulli_logit_grad d m) /\
+  C12HandleNum.hfun 6 = (fun d m _ => poisson d m) /\ C12HandleNum.hfun 7 = (fun d m _ => poisson_grad d m) /\
+  C12HandleNum.hfun 8 = (fun d m _ => poisson_log d m) /\ C12HandleNum.hfun 9 = (fun d m _ => poisson_log_grad d m) /\
+  C12HandleNum.hfun 10 = (fun d m _ => rayleigh d m) /\ C12HandleNum.hfun 11 = (fun d m _ => rayleigh_grad d m) /\
+  C12HandleNum.hfun 12 = (fun d m _ => gamma_ d m) /\ C12HandleNum.hfun 13 = (fun d m _ => gamma_grad d m) /\
+  C12HandleNum.hfun 14 = huber /\ C12HandleNum.hfun 15 = huber_grad /\
+  C12HandleNum.hfun 16 = negative_binomial /\ C12HandleNum.hfun 17 = negative_binomial_grad /\
+  C12HandleNum.hfun 18 = beta_ /\ C12HandleNum.hfun 19 = beta_grad.
+Proof. exact C12HandleNum.hfun_table. Qed.
+Print Assumptions C12_handles_numeric_table.
 
 (* ---- T1: every gradient handle is the derivative of its loss handle on the loss's domain ---------- *)
 (* domain of m: the lower bound fg_setup.setup attaches to the objective (0 where the loss is EPS-shifted) *)
@@ -171,6 +196,51 @@ Theorem C12_evaluate_bytes_G : forall (g : V -> V -> V) (K : ktensor V) (X : den
   evaluate_G_b V v0 v1 vadd vmul g K X w sp = eval_G v0 v1 vadd vmul g K X w.
 Proof. exact (evaluate_G_bytes V v0 v1 vadd vmul vsub vopp Vring). Qed.
 
+(* fg.evaluate is linear in the weight array: every weight times c => objective and every gradient entry times c (Proofs/C12WScale.v;
+   the correspondence stream hands fractional weights k / 2^e to pyttb and compares 2^e * result with the model on the numerators k) *)
+Theorem C12_weights_linear_F : forall (f : V -> V -> V) (K : ktensor V) (X W : dense V) (c : V),
+  eval_F v0 v1 vadd vmul f K X (Some (wscale V vmul c W)) = vmul c (eval_F v0 v1 vadd vmul f K X (Some W)).
+Proof. exact (eval_F_wscale V v0 v1 vadd vmul vsub vopp Vring). Qed.
+
+Theorem C12_weights_linear_G : forall (g : V -> V -> V) (K : ktensor V) (X W : dense V) (c : V),
+  eval_G v0 v1 vadd vmul g K X (Some (wscale V vmul c W)) = map (map (map (vmul c))) (eval_G v0 v1 vadd vmul g K X (Some W)).
+Proof. exact (eval_G_wscale V v0 v1 vadd vmul vsub vopp Vring). Qed.
+
+(* ---- fg_est.estimate_helper / estimate transliterated LINE BY LINE on whole arrays (Proofs/C12EstLine.v: Uexp by fancy row indexing,
+   the forward pass Zexp[k] = Zexp[k-1] * Uexp[k-1], the backward pass Zexp[k] *= Zexp[0]; Zexp[0] *= Uexp[k], mvals by row sums,
+   Y[crng] -= ... as numpy fancy-index subtraction, S = csr_array(...) as a dense I x nsamples array, G[k] = S.dot(Zexp[k]))
+   compute the subscript-level models est_m / est_F / est_G.  Hypotheses: at least two modes, every subscript row has one entry per
+   mode, every addressed factor row exists and has R entries, data / weight vectors have one entry per sample, crng in range. *)
+Theorem C12_estimate_helper_line : forall (As : list (list (list V))) (R : nat) (subs : list idx),
+  (2 <= length As)%nat ->
+  (forall s, (s < length subs)%nat -> length (nth s subs []) = length As) ->
+  (forall k s, (k < length As)%nat -> (s < length subs)%nat -> length (nth (nth k (nth s subs []) 0%nat) (nth k As []) []) = R) ->
+  let U := uexp V As subs (length As) in
+  let Z := zexp_bwd V vmul U (length As) (zexp_fwd V vmul U (length As)) in
+  Z = map (fun k => tabm V (length subs) R (fun s r => kprod_skip v0 v1 vmul As (nth s subs []) r k)) (seq 0 (length As)) /\
+  rowsum V v0 vadd (had V vmul (nth (length As - 1) Z []) (nth (length As - 1) U []))
+  = map (fun s => fac_val v0 v1 vadd vmul As R (nth s subs [])) (seq 0 (length subs)).
+Proof. exact (fun As R subs H1 H2 H3 => conj (zexp_line_spec V v0 v1 vadd vmul vsub vopp Vring As R subs H1 H2 H3)
+                                              (mvals_line_spec V v0 v1 vadd vmul vsub vopp Vring As R subs H1 H2 H3)). Qed.
+
+Theorem C12_estimate_F_line : forall (f : V -> V -> V) (As : list (list (list V))) (R : nat) (subs : list idx) (xs ws : list V)
+    (crng : option (list nat)),
+  (2 <= length As)%nat ->
+  (forall s, (s < length subs)%nat -> length (nth s subs []) = length As) ->
+  (forall k s, (k < length As)%nat -> (s < length subs)%nat -> length (nth (nth k (nth s subs []) 0%nat) (nth k As []) []) = R) ->
+  length xs = length subs -> length ws = length subs -> Forall (fun j => (j < length subs)%nat) (crng_list crng) ->
+  estimate_F_line V v0 vadd vmul vsub f As subs xs ws crng = est_F v0 v1 vadd vmul vsub f As R subs xs ws (crng_list crng).
+Proof. exact (fun f As R subs xs ws crng H1 => estimate_F_line_spec V v0 v1 vadd vmul vsub vopp Vring f As R (repeat 0%nat (length As)) subs xs ws crng H1 (repeat_length 0%nat (length As))). Qed.
+
+Theorem C12_estimate_G_line : forall (g : V -> V -> V) (As : list (list (list V))) (R : nat) (shp : shape) (subs : list idx)
+    (xs ws : list V) (crng : option (list nat)),
+  (2 <= length As)%nat -> length shp = length As ->
+  (forall s, (s < length subs)%nat -> length (nth s subs []) = length As) ->
+  (forall k s, (k < length As)%nat -> (s < length subs)%nat -> length (nth (nth k (nth s subs []) 0%nat) (nth k As []) []) = R) ->
+  length xs = length subs -> length ws = length subs -> Forall (fun j => (j < length subs)%nat) (crng_list crng) ->
+  estimate_G_line V v0 vadd vmul vsub g As R shp subs xs ws crng = est_G v0 v1 vadd vmul vsub g As R subs xs ws (crng_list crng) shp.
+Proof. exact (fun g As R shp subs xs ws crng => estimate_G_line_spec V v0 v1 vadd vmul vsub vopp Vring g As R shp subs xs ws crng). Qed.
+
 (* ---- fg_est.estimate with lambda_check: `if lambda_check and any(weights != 1): model = model.normalize(0)` (Proofs/C12Lambda.v) ----
    estimate_helper reads only the factor matrices.  For EVERY rescaling of the factor columns (column r of factor k times cs_k[r]) whose
    product over the modes is the component weight — what normalize(0) performs — the values it computes are those of the weighted model *)
@@ -229,6 +299,11 @@ Print Assumptions C12_mttkrps_bytes.
 Print Assumptions C12_mttkrps_bytes_py.
 Print Assumptions C12_evaluate_bytes_F.
 Print Assumptions C12_evaluate_bytes_G.
+Print Assumptions C12_weights_linear_F.
+Print Assumptions C12_weights_linear_G.
+Print Assumptions C12_estimate_helper_line.
+Print Assumptions C12_estimate_F_line.
+Print Assumptions C12_estimate_G_line.
 Print Assumptions C12_objective.
 Print Assumptions C12_multilinear.
 Print Assumptions C12_adjoint.
